@@ -319,6 +319,23 @@ Fixpoint push_round (sv : server) (eps : list (N * list outcome)) (entries : lis
       (sv2, eps2, mine ++ more, hung || h2)
   end.
 
+Fixpoint push_rounds (n : nat) (sv : server) (eps : list (N * list outcome))
+  : server * list (N * list outcome) * list (N * str * (lease * outcome)) :=
+  match n with
+  | O => (sv, eps, [])
+  | S n' =>
+      let '(sv1, eps1, posts, _) :=
+        push_round sv eps (isort (fun a b => str_ltb (show_sub_name (fst a)) (show_sub_name (fst b))) (sv_reg sv)) in
+      let '(sv2, eps2, more) := push_rounds n' sv1 eps1 in
+      (sv2, eps2, posts ++ more)
+  end.
+
+Fixpoint dedup_sorted (l : list N) : list N :=
+  match l with
+  | a :: ((b :: _) as r) => if N.eqb a b then dedup_sorted r else a :: dedup_sorted r
+  | _ => l
+  end.
+
 Definition sorted_registry (sv : server) : list (name * str) :=
   isort (fun a b => str_ltb (show_sub_name (fst a)) (show_sub_name (fst b))) (sv_reg sv).
 
@@ -352,15 +369,17 @@ Fixpoint run_lines (sv : server) (seen : list N) (acks : list str) (bg : list (N
                        ++ flat_map (fun x => r_post (fst (fst x)) (snd (fst x)) (snd x)) posts)
               :: run_lines sv2 seen acks bg eps1 rest
           else if is_kw "LOOP" op then
-            (* the real loop: every registered subscription gets its queued messages POSTed; used with
-               endpoints that accept everything, so that each message is POSTed exactly once *)
-            let '(sv1, eps1, posts, _) := push_round sv eps (sorted_registry sv) in
+            (* the real loop, left running for <rounds> intervals: rounds+1 passes (at 0, 1, .., rounds intervals);
+               reported per subscription: number of POSTs and the set of distinct message ids *)
+            let n := match args with [_; r] => match p_nat r with Some k => S (N.to_nat k) | None => 1%nat end
+                                | _ => 1%nat end in
+            let '(sv1, eps1, posts) := push_rounds n sv eps in
             let subs := map (fun e => show_sub_name (fst e)) (sorted_registry sv) in
             let per s := filter (fun x => str_eqb (snd (fst x)) s) posts in
             let groups := filter (fun s => negb (is_nil (per s))) subs in
             join_sp ([kw "LOOP"; r_num (len_N groups)]
                        ++ flat_map (fun s =>
-                            let ids := isort N.ltb (map (fun x => m_id (l_msg (fst (snd x)))) (per s)) in
+                            let ids := dedup_sorted (isort N.ltb (map (fun x => m_id (l_msg (fst (snd x)))) (per s))) in
                             [r_str s; r_num (len_N (per s)); r_num (len_N ids)]
                               ++ map (fun i => r_str (dec_of_N i)) ids) groups)
               :: run_lines sv1 seen acks bg eps1 rest
